@@ -120,3 +120,7 @@ pub fn enc_json<T: Serialize>(v: &T) -> String {
 pub fn jv(text: &str) -> serde_json::Value {
     serde_json::from_str(text).unwrap()
 }
+
+pub fn leak_vec<T>(v: Vec<&'static T>) -> &'static [&'static T] {
+    Box::leak(v.into_boxed_slice())
+}
